@@ -66,6 +66,15 @@ CHECKS = {
          "for which two different accepted values change the PDU; constants/reserved/matching-request never settable.",
     note="Trusted: Hypothesis, the generator's injective DOPs. Known finding C08-condensed-mask-static-length is excluded by a counterfactual predicate.",
     design="3/C08"),
+ "C17": dict(
+    technique="differential testing over flip schedules: strict / run-time non-strict / strict again in one worker vs a born-non-strict worker process",
+    text="Bounded exploration: operations of C01-C06 (encode of valid and singly mutated assignments, decode of valid, truncated, corrupted and "
+         "random PDUs incl. invalid UTF-8, layer decode, loading of valid and slightly non-conforming documents) over generated descriptions. "
+         "(a) an operation that succeeds strict returns the identical result non-strict; (b) the non-strict outcome after a run-time flip equals "
+         "the outcome in a process whose flag was cleared before any odxtools sub-module was imported (a stale import-time copy differs); "
+         "(c) flipping back restores exactly the strict outcome.",
+    note="Trusted: outcome normalisation (repr, masked addresses), the importlib bootstrap of the born-non-strict worker. Only call sites reached by the generated operations are exercised.",
+    design="3/C17"),
  "C18": dict(
     technique="metamorphic testing: one generated edit per database pair, expected classification from an independent XML-level model; complete enumeration of single edits of somersault.pdx",
     text="Bounded exploration: generated databases (1..3 layers, inheritance, services sharing request prefixes) and the shipped somersault.pdx x one "
